@@ -118,6 +118,30 @@ pub struct Task<S: WebSocket, T: TimestampProvider> {
     pub keepalive_timeout: OptionalDuration,
 }
 
+impl<S: WebSocket, T: TimestampProvider> Drop for Task<S, T> {
+    /// The task normally leaves through `wind_down`, which empties `flows`. If its future is
+    /// dropped before that (aborted, or the `JoinSet` it was spawned on is dropped) the
+    /// `Multiplexor` still shares the map, so nothing would ever tell the streams and the
+    /// pending requests in it that the connection is gone: do the local part of the wind-down.
+    fn drop(&mut self) {
+        let mut flows = self.flows.write();
+        for (_, slot) in flows.drain() {
+            match slot {
+                FlowSlot::Established(mut stream_data) => {
+                    // Writers see `BrokenPipe`, readers see EOF after what they already have
+                    stream_data.disallow_write();
+                    stream_data.disallow_read();
+                }
+                // The requester sees `Closed`
+                FlowSlot::Requested(sender) => drop(sender),
+                FlowSlot::BindRequested(sender) => {
+                    sender.send(false).ok();
+                }
+            }
+        }
+    }
+}
+
 impl<S: WebSocket, T: TimestampProvider> Task<S, T> {
     /// Processing task
     /// Does the following:
